@@ -48,7 +48,7 @@ def main(argv=None):
         mod.run(eng, rep)
         if tier == "thorough" and hasattr(mod, "thorough"):
             mod.thorough(eng, rep)
-        code, lines = rep.finalize(hashes=eng.prog.hashes, resolver_stats=eng.res.stats())
+        code, lines = rep.finalize(hashes=eng.prog.hashes, resolver_stats=eng.res.stats(), write=not a.no_evidence)
     except AnalysisError as ex:
         print("ANALYSIS-ERROR property=%s %s" % (pid, ex))
         return 2
